@@ -946,6 +946,13 @@ func (obj *Package) DefLambda(name string, lam *Lambda, fc func(args List) Objec
 		if vv := obj.vars[name]; vv != nil && Unbound == vv.Val && vv.Export {
 			fi.Export = true
 			delete(obj.vars, name)
+			for _, u := range obj.Users {
+				u.mu.Lock()
+				if xf := u.funcs[name]; xf == nil {
+					u.funcs[name] = &fi
+				}
+				u.mu.Unlock()
+			}
 		}
 	}
 	obj.mu.Unlock()
